@@ -101,6 +101,34 @@ type fakeNS struct {
 	err    bool
 	kind   int                // flavour of the failure
 	cancel context.CancelFunc // the request's cancel function (flavours that let the request run out of time during the lookup)
+	meta   int                // state of the namespace object no property mentions (see nsObject)
+}
+
+// nsObject: the namespace a lookup returns. Only its labels matter to any property; meta selects a state of the rest of the
+// object: 1 = being deleted (deletionTimestamp, finalizer, phase Terminating), 2 = phase Terminating only, 3 = annotations,
+// generation, resourceVersion, uid, managed fields of a long-lived namespace, 4 = phase Active spelled out
+func nsObject(name string, labels map[string]string, meta int) *corev1.Namespace {
+	ns := &corev1.Namespace{ObjectMeta: metav1.ObjectMeta{Name: name, Labels: labels}}
+	switch meta {
+	case 1:
+		ts := metav1.NewTime(time.Unix(1700000000, 0))
+		ns.DeletionTimestamp = &ts
+		ns.Finalizers = []string{"example.com/hold"}
+		ns.Spec.Finalizers = []corev1.FinalizerName{corev1.FinalizerKubernetes}
+		ns.Status.Phase = corev1.NamespaceTerminating
+		ns.Status.Conditions = []corev1.NamespaceCondition{{Type: corev1.NamespaceContentRemaining, Status: corev1.ConditionTrue}}
+	case 2:
+		ns.Status.Phase = corev1.NamespaceTerminating
+	case 3:
+		ns.Annotations = map[string]string{"scheduler.alpha.kubernetes.io/node-selector": "env=prod", "pod-security.kubernetes.io/enforce": "privileged", "kubectl.kubernetes.io/last-applied-configuration": "{}"}
+		ns.Generation, ns.ResourceVersion, ns.UID = 12, "99", types.UID("ns-uid")
+		ns.ManagedFields = []metav1.ManagedFieldsEntry{{Manager: "kubectl", Operation: metav1.ManagedFieldsOperationUpdate}}
+		ns.Spec.Finalizers = []corev1.FinalizerName{corev1.FinalizerKubernetes}
+		ns.Status.Phase = corev1.NamespaceActive
+	case 4:
+		ns.Status.Phase = corev1.NamespaceActive
+	}
+	return ns
 }
 
 // nsErrKinds: ways a namespace lookup fails; the property does not distinguish them
@@ -127,7 +155,7 @@ func (f fakeNS) GetNamespace(ctx context.Context, name string) (*corev1.Namespac
 		}
 		return nil, fmt.Errorf("boom")
 	}
-	return &corev1.Namespace{ObjectMeta: metav1.ObjectMeta{Name: name, Labels: f.labels}}, nil
+	return nsObject(name, f.labels, f.meta), nil
 }
 
 type fakeLister struct {
@@ -198,6 +226,7 @@ type AdmitCase struct {
 	NSLabels            map[string]string
 	NSErr               bool
 	NSErrKind           int                // index into nsErrKinds
+	NSMeta              int                // state of the looked-up namespace object outside its labels (nsObject); never sent to the model
 	CtxCancelled        bool               // the request's context is already cancelled when Validate is called
 	cancelRequest       context.CancelFunc // set by runGo
 	Pods                []*corev1.Pod
@@ -287,7 +316,7 @@ func (o ObjSpec) bareObject() runtime.Object {
 	case "pod":
 		return o.Pod
 	case "namespace":
-		return &corev1.Namespace{ObjectMeta: metav1.ObjectMeta{Name: o.NSName, Labels: o.Labels}}
+		return nsObject(o.NSName, o.Labels, int(o.MetaGen)%5)
 	case "controller":
 		return wrapController(o.CtlKind, o.Pod, o.NoTemplate)
 	case "other":
@@ -443,7 +472,7 @@ func newAdmission(a *AdmitCase, ev policy.Evaluator, rec metrics.Recorder, liste
 		Configuration: &admissionapi.PodSecurityConfiguration{Defaults: a.Defaults,
 			Exemptions: admissionapi.PodSecurityExemptions{Namespaces: a.ExNS, Usernames: a.ExUsers, RuntimeClasses: a.ExRC}},
 		Evaluator: ev, Metrics: rec, PodSpecExtractor: admission.DefaultPodSpecExtractor{},
-		NamespaceGetter: fakeNS{labels: a.NSLabels, err: a.NSErr, kind: a.NSErrKind, cancel: a.cancelRequest}, PodLister: lister,
+		NamespaceGetter: fakeNS{labels: a.NSLabels, err: a.NSErr, kind: a.NSErrKind, cancel: a.cancelRequest, meta: a.NSMeta}, PodLister: lister,
 	}
 	if err := adm.CompleteConfiguration(); err != nil {
 		panic(err)
@@ -715,7 +744,7 @@ func runHistory(group []*AdmitCase, order []int) []AdmitOut {
 			h.ev = &evWrap{syn: a.Syn, salt: a.Salt, real: realEvaluator, cancelAt: a.ExpireAfter, cancel: cancel}
 			h.rec = &recorder{}
 			h.lister = &fakeLister{pods: a.Pods, err: a.ListErr}
-			h.ns = fakeNS{labels: a.NSLabels, err: a.NSErr, kind: a.NSErrKind, cancel: cancel}
+			h.ns = fakeNS{labels: a.NSLabels, err: a.NSErr, kind: a.NSErrKind, cancel: cancel, meta: a.NSMeta}
 			if a.CtxCancelled {
 				cancel()
 			}
